@@ -84,3 +84,16 @@ Definition judge_slice (c : str * option Z * option Z * outcome sstring) : N :=
               end in
   let dom := negb oob && (match start, stop with None, _ | _, None => true | _, _ => false end) in
   bits (osstr_eqb (getitem v start stop) r) spec dom (existsb is_special s).
+
+(* suite quoted: (configuration, quote char, source, impl result of backend.convert_value_str) *)
+From PS Require Import Proofs.QuoteP.
+Definition judge_quoted (c : ecfg * char * str * outcome str) : N :=
+  let '(K, q, s, r) := c in
+  let v := parse true s in
+  let spec := match r with
+              | Ok t => option_eqb items_eqb (qread (with_quote K q) q t) (Some (filter_items K (iparse s)))
+              | SigmaErr _ => needs_missing K (iparse s)
+              | Crash _ => false
+              end in
+  bits (ostr_eqb (convert_quoted K q v) r) spec (wf_quoting K q)
+       (existsb (fun x => N.eqb x q || mem x (escaped_chars K) || is_special x || N.eqb x c_bs) s).
